@@ -265,13 +265,14 @@ func (s *Svc) NReq() int {
 
 // HCache is an in-memory cache that records writes and can fail.
 type HCache struct {
-	mu     sync.Mutex
-	Data   []byte
-	Writes [][]byte
-	FailW  int // fail the k-th write (1-based)
-	FailR  bool
-	Seams  bool // park at a scheduler seam before every write
-	nw     int
+	mu       sync.Mutex
+	Data     []byte
+	Writes   [][]byte
+	FailW    int // fail the k-th write (1-based)
+	FailR    bool
+	FailNext bool // fail the next write only
+	Seams    bool // park at a scheduler seam before every write
+	nw       int
 }
 
 func (c *HCache) Write(b []byte) error {
@@ -281,7 +282,8 @@ func (c *HCache) Write(b []byte) error {
 	c.mu.Lock()
 	defer c.mu.Unlock()
 	c.nw++
-	if c.nw == c.FailW {
+	if c.nw == c.FailW || c.FailNext {
+		c.FailNext = false
 		return errors.New("cache write failed (scripted)")
 	}
 	c.Data = append([]byte(nil), b...)
